@@ -296,38 +296,42 @@ pub fn names(cx: &mut Ctx, args: &Args, rng: &mut Rng) -> i32 {
 pub fn zeroize(cx: &mut Ctx, args: &Args, rng: &mut Rng) -> i32 {
     let nkeys = args.num("keys", 4) as usize;
     let force_off = args.get("force-off") == Some("1");
+    let all_lens = args.get("lens") != Some("few");
     for ti in cx.select(args) {
-        let (name, ksz, size) = (cx.types[ti].name, cx.types[ti].key_size, cx.types[ti].size_of);
+        let (name, size) = (cx.types[ti].name, cx.types[ti].size_of);
         let mut r = rng.fork(name);
         let f = cx.types[ti].zeroize_probe;
-        for route in Route::ALL {
-            // is the route available for this type?
-            let k0 = r.bytes(ksz);
-            let avail = catch(|| f(&k0, 0x11, route)).ok().flatten().is_some();
-            if !avail {
-                continue;
-            }
-            cx.reset(name);
-            let mut keys: Vec<Vec<u8>> = vec![vec![0u8; ksz], vec![0xFFu8; ksz]];
-            while keys.len() < nkeys.max(3) {
-                keys.push(r.bytes(ksz));
-            }
-            for (ki, key) in keys.iter().enumerate() {
-                for fill in [0x11u8, 0xEEu8] {
-                    // twice per (key, fill): detects non-deterministic (uninitialised) bytes
-                    for rep in 0..2 {
-                        let o = catch(|| f(key, fill, route));
-                        match o {
-                            Ok(Some(o)) => cx.emit(json!({"ev":"zimg","type":name,"route":route.name(),"arm": if force_off {"soft"} else {"default"},
-                                "ki":ki,"fill":fill,"rep":rep,"size":o.size,"before":o.before,"after":o.after,"outcome":"ok"})),
-                            _ => cx.emit(json!({"ev":"zimg","type":name,"route":route.name(),"arm": if force_off {"soft"} else {"default"},
-                                "ki":ki,"fill":fill,"rep":rep,"size":size,"before":[],"after":[],"outcome":"panic"})),
+        // every accepted key length: what is stored (and must be erased) can depend on it
+        for ksz in key_lens(&cx.types[ti], all_lens) {
+            for route in Route::ALL {
+                // is the route available for this type?
+                let k0 = r.bytes(ksz);
+                let avail = catch(|| f(&k0, 0x11, route)).ok().flatten().is_some();
+                if !avail {
+                    continue;
+                }
+                cx.reset(name);
+                let mut keys: Vec<Vec<u8>> = vec![vec![0u8; ksz], vec![0xFFu8; ksz]];
+                while keys.len() < nkeys.max(3) {
+                    keys.push(r.bytes(ksz));
+                }
+                for (ki, key) in keys.iter().enumerate() {
+                    for fill in [0x11u8, 0xEEu8] {
+                        // twice per (key, fill): detects non-deterministic (uninitialised) bytes
+                        for rep in 0..2 {
+                            let o = catch(|| f(key, fill, route));
+                            match o {
+                                Ok(Some(o)) => cx.emit(json!({"ev":"zimg","type":name,"route":route.name(),"arm": if force_off {"soft"} else {"default"},
+                                    "ki":ki,"fill":fill,"rep":rep,"size":o.size,"before":o.before,"after":o.after,"outcome":"ok"})),
+                                _ => cx.emit(json!({"ev":"zimg","type":name,"route":route.name(),"arm": if force_off {"soft"} else {"default"},
+                                    "ki":ki,"fill":fill,"rep":rep,"size":size,"before":[],"after":[],"outcome":"panic"})),
+                            }
                         }
                     }
                 }
+                cx.emit(json!({"ev":"zend","type":name,"route":route.name(),"nkeys":keys.len(),"klen":ksz,"zeroize":cfg!(feature = "zeroize")}));
+                cx.end();
             }
-            cx.emit(json!({"ev":"zend","type":name,"route":route.name(),"nkeys":keys.len(),"klen":ksz,"zeroize":cfg!(feature = "zeroize")}));
-            cx.end();
         }
     }
     0
